@@ -611,3 +611,27 @@ func checkAppendBases(c *Ctx, rels []string) {
 	}
 	c.notes = append(c.notes, fmt.Sprintf("append bases: %d make([]T, 0, n) sites in %v", n, rels))
 }
+
+// checkNoSleep: nothing in the library sleeps: every wait is a select that also listens to
+// shutdown (a time.Sleep in a retry loop keeps a goroutine, and whoever joins it, alive after Close).
+func checkNoSleep(c *Ctx) {
+	rule := "T-BLOCK(sleep)"
+	n := 0
+	for _, rel := range c.P.repoRels() {
+		for _, f := range c.P.SrcFuncs(rel) {
+			n++
+			for _, b := range f.Blocks {
+				for _, in := range b.Instrs {
+					cc, _ := callCommonOf(in)
+					if cc == nil {
+						continue
+					}
+					if g := cc.StaticCallee(); g != nil && g.Pkg != nil && g.Pkg.Pkg.Path() == "time" && g.Name() == "Sleep" {
+						c.fail(rule, fnName(f)+"/time.Sleep", c.P.instrPos(in), fnName(f)+" calls time.Sleep: an uninterruptible wait; shutdown cannot cut it short, so Close() and everything joined on this goroutine are delayed by it")
+					}
+				}
+			}
+		}
+	}
+	c.check(n > 100, rule, "repository/functions-scanned", "-", fmt.Sprintf("%d functions scanned, no time.Sleep", n), "too few functions scanned")
+}
